@@ -6,6 +6,7 @@ import (
 	"net"
 	"os"
 	"runtime"
+	"syscall"
 	"time"
 
 	pt "gitlab.torproject.org/tpo/anti-censorship/pluggable-transports/goptlib"
@@ -707,6 +708,9 @@ func c10Meek(c *harness.Ctx) {
 	}
 	dials := 0
 	dialFn := func(network, addr string) (net.Conn, error) {
+		if ending {
+			return nil, &net.OpError{Op: "dial", Net: "tcp", Err: syscall.ECONNREFUSED}
+		}
 		dials++
 		name := fmt.Sprintf("h%d", dials)
 		l := c.Net.NewLink("c", name)
